@@ -31,7 +31,7 @@ def demo_cmd(d, wt):
         names = re.findall(r'^func (Test\w+)\(', src, re.M)
         race = ''
         mp = os.path.join(d, 'meta.json')
-        if os.path.exists(mp) and re.search(r'go test[^;&|\n]*\s-race\b', json.load(open(mp)).get('demo', '')):
+        if os.path.exists(mp) and re.search(r'go test[^()\n;&|]*?\s-race\b[^()\n;&|]*\./', json.load(open(mp)).get('demo', '')):
             race = '-race '   # the demonstration itself asks for the race detector
         return 'cd %s/v4 && go test %s-tags verif -vet=off -count=1 -run "^(%s)$" ./%s/' % (wt, race, '|'.join(names), sub), files
     t = os.path.join(d, 'demo')
